@@ -470,7 +470,9 @@ theorem powellDoStep_safe {cons : Spec.Cons ℝ} (hs : Safe I Q (Tied cons)) (hs
                 split
                 · exact hQ4
                 · exact ⟨hQ4, h3.2⟩
-          · exact ⟨hQ2, h1.2⟩
+          · split
+            · rename_i e he3; obtain ⟨e1, fn1⟩ := e; exact hss.set_err _ _ _ _ hQ2 h1.2 he3
+            · rename_i fn3 he3; exact ⟨hss.set_ok _ _ _ hQ2 h1.2 he3, h1.2⟩
         · split
           · rename_i e he3; obtain ⟨e1, fn1⟩ := e; exact hss.set_err _ _ _ _ hQ2 h1.2 he3
           · rename_i fn3 he3; exact ⟨hss.set_ok _ _ _ hQ2 h1.2 he3, h1.2⟩
